@@ -201,32 +201,32 @@ pub(crate) mod verif_enc {
         vrep!(6, i, {
             if i < n {
                 let e = tget(i);
-                assert!(e.nonce == i as u64, "[C06,C07,C01] chunk i is sealed under nonce i (sequential from 0, each nonce once)");
+                assert!(e.nonce == i as u64, "[C06,C07,C01,C02] chunk i is sealed under nonce i (sequential from 0, each nonce once)");
                 assert!(e.adlen == aad.len() + 8, "[C06] AAD = caller aad || last-chunk flag || length");
                 vrep!(4, j, { if j < aad.len() { assert!(e.ad[j] == aad[j], "[C06,C02] AAD begins with the caller's aad (password-mode magic)"); } });
                 let a = aad.len();
                 assert!(e.ad[a] == 0 && e.ad[a + 1] == 0 && e.ad[a + 2] == 0 && (e.ad[a + 3] == 0 || e.ad[a + 3] == 1), "[C06] AAD last-chunk flag is BE32 0 or 1");
                 if complete {
                     let last: u8 = if i + 1 == n { 1 } else { 0 };
-                    assert!(e.ad[a + 3] == last, "[C06,C01,C03] last-chunk flag is 1 on the final chunk and only there");
+                    assert!(e.ad[a + 3] == last, "[C06,C01,C02,C03] last-chunk flag is 1 on the final chunk and only there");
                 }
                 assert!(e.ad[a + 4] == 0 && e.ad[a + 5] == 0 && e.ad[a + 6] == 0 && e.ad[a + 7] as usize == e.ptlen, "[C06] AAD length field = BE32(chunk plaintext length)");
                 assert!(e.ptlen <= cs, "[C06,C09,C11] chunk plaintext length <= chunk size");
                 if i + 1 < n { assert!(e.ptlen >= 1, "[C06] only the final chunk may be empty"); }
-                if i < MAXR { assert!(e.ptlen == r.sizes[i], "[C06,C01] chunk i carries exactly the bytes of read i"); }
-                vrep!(3, j, { if j < e.ptlen { assert!(e.pt[j] == r.data[src + j], "[C01,C06] sealed plaintext is the next bytes of the source, in order"); } });
+                if i < MAXR { assert!(e.ptlen == r.sizes[i], "[C06,C01,C02] chunk i carries exactly the bytes of read i"); }
+                vrep!(3, j, { if j < e.ptlen { assert!(e.pt[j] == r.data[src + j], "[C01,C02,C06] sealed plaintext is the next bytes of the source, in order"); } });
                 src += e.ptlen;
             }
         });
         if complete {
-            assert!(n >= 1, "[C06,C01] at least one (possibly empty) final chunk");
-            assert!(src == r.len && r.pos == r.len, "[C01,C06] on success the whole plaintext has been sealed");
+            assert!(n >= 1, "[C06,C01,C02] at least one (possibly empty) final chunk");
+            assert!(src == r.len && r.pos == r.len, "[C01,C02,C06] on success the whole plaintext has been sealed");
         }
         n
     }
     pub fn check_sink(w: &Sink, n: usize, plen: usize, complete: bool) {
         assert!(!w.limit, "[LIMIT] write-call structure outside what this harness models");
-        assert!(!w.mismatch, "[C06,C08,C01] every byte written equals the documented record layout: BE64(chunk number) || BE32(last) || BE32(length) || ciphertext || tag");
+        assert!(!w.mismatch, "[C06,C08,C01,C02] every byte written equals the documented record layout: BE64(chunk number) || BE32(last) || BE32(length) || ciphertext || tag");
         assert!(!w.beyond, "[C06,C08,C10] nothing is written beyond the records of the chunks sealed so far");
         if complete {
             assert!(w.ci == n && w.wi == 0, "[C06,C10] on success every record has been written completely");
@@ -246,7 +246,7 @@ pub(crate) mod verif_enc {
         let mut w = Sink::new();
         let key = [0x11u8; 32];
         let res = encrypt_chunks(&mut r, &mut w, &key, aad, cs as u32);
-        assert!(res.is_ok(), "[C01,C10] fault-free encryption succeeds for every plaintext and read partition");
+        assert!(res.is_ok(), "[C01,C02,C10] fault-free encryption succeeds for every plaintext and read partition");
         let n = check_seals(&r, aad, cs, true);
         check_sink(&w, n, len, true);
         assert!(r.maxbuf <= cs, "[C11,C09] no read asks for more than one chunk");
@@ -369,9 +369,9 @@ pub(crate) mod verif_enc {
         let mut w = ShortSink { ci: 0, wi: 0, len: 0, writes: 0, flushed_len: 0, mismatch: false, beyond: false };
         let key = [0x11u8; 32];
         let res = encrypt_chunks(&mut r, &mut w, &key, &[], 1);
-        assert!(res.is_ok(), "[C01,C10] partial writes are harmless: encryption succeeds");
+        assert!(res.is_ok(), "[C01,C02,C10] partial writes are harmless: encryption succeeds");
         let n = check_seals(&r, &[], 1, true);
-        assert!(!w.mismatch && !w.beyond, "[C10,C01,C06] with partial writes the byte stream still equals the documented layout");
+        assert!(!w.mismatch && !w.beyond, "[C10,C01,C02,C06] with partial writes the byte stream still equals the documented layout");
         assert!(w.ci == n && w.wi == 0 && w.len == 32 * n + len, "[C10,C08] with partial writes every record is still written completely");
         assert!(w.flushed_len == w.len, "[C10] everything flushed");
         kani::cover!(w.writes > 6);
@@ -522,7 +522,7 @@ pub(crate) mod verif_hdr_enc {
         };
         unsafe {
             assert!(NA.n == 1, "[C06,C07] exactly one handshake per file");
-            assert!(NA.s == s && NA.spk == spk && NA.r == r, "[C01,C05] the handshake is run with the caller's sender key pair and recipient key");
+            assert!(NA.s == s && NA.spk == spk && NA.r == r, "[C01,C02,C05] the handshake is run with the caller's sender key pair and recipient key");
             assert!(NA.plen == 4 && NA.prologue == [0x65, 0x67, 0x6b, 0x10], "[C06] the handshake prologue is the key-mode magic 65 67 6B 10");
             assert!(NA.w_writes_at_call == 0, "[C13,C05] nothing is written or flushed before the key exchange has succeeded");
             if fresh {
@@ -535,15 +535,15 @@ pub(crate) mod verif_hdr_enc {
                 assert!(matches!(res, Err(EncryptError::Other(_))), "[C05] a refused key exchange is reported as an error");
                 assert!(W_WRITES == 0 && W_FLUSHES == 0 && EC.0 == 0 && SRC_READS == 0, "[C05,C13] after a refused key exchange nothing is written, flushed or read");
             } else {
-                assert!(EC.0 == 1, "[C01] the chunk loop runs once");
+                assert!(EC.0 == 1, "[C01,C02] the chunk loop runs once");
                 assert!(EC.6 == 132 && EC.7 == 132, "[C06,C08,C13] the 132-byte header is written and flushed before the first chunk");
                 let mut ok = w.out[0] == 0x65 && w.out[1] == 0x67 && w.out[2] == 0x6b && w.out[3] == 0x10;
                 let mut j = 0;
                 while j < 128 { if w.out[4 + j] != N_CT[j] { ok = false; } j += 1; }
                 assert!(ok, "[C06,C08] header = 65 67 6B 10 || the 128-byte Noise handshake message, nothing else");
-                assert!(HK.0 == 1 && HK.1 == 0 && HK.3 == 32 && HK.2 == NA.payload && HK.5 == 32 && HK.4 == N_HH && HK.6 == 32, "[C06,C01] file key = HKDF-SHA256(salt empty, ikm = payload key, info = handshake hash, 32)");
-                assert!(EC.2 == 32 && EC.1 == HK_OUT && EC.4 == 0 && EC.5 == 65536, "[C06,C01,C11] chunks are sealed under the file key, empty aad, chunk size 65536");
-                assert!(SRC_READS == 1, "[C01] the chunk loop reads the caller's plaintext source");
+                assert!(HK.0 == 1 && HK.1 == 0 && HK.3 == 32 && HK.2 == NA.payload && HK.5 == 32 && HK.4 == N_HH && HK.6 == 32, "[C06,C01,C02] file key = HKDF-SHA256(salt empty, ikm = payload key, info = handshake hash, 32)");
+                assert!(EC.2 == 32 && EC.1 == HK_OUT && EC.4 == 0 && EC.5 == 65536, "[C06,C01,C02,C11] chunks are sealed under the file key, empty aad, chunk size 65536");
+                assert!(SRC_READS == 1, "[C01,C02] the chunk loop reads the caller's plaintext source");
                 assert!(res.is_ok() == !cfail, "[C10,C12] the result of the chunk loop is the result of key_encrypt");
             }
         }
